@@ -127,6 +127,9 @@ class Model(object):
                     k = inline.expand_table_dispatch(tree, set(ref['__globals__']))
                     if k:
                         self.inlined.append((rel, 'table dispatch unfolded', [k]))
+                    k = inline.expand_table_get(tree, set(ref['__globals__']), set(ref.get('__classattrs__', ())))
+                    if k:
+                        self.inlined.append((rel, 'table lookup unfolded', [k]))
                     # N30: new module-level constants written out where they are used
                     cs = inline.inline_new_constants(tree, set(ref['__globals__']))
                     if cs:
